@@ -25,13 +25,17 @@
 //	   api.ConvertWithContext).
 //	R6 an error returned by a library function aborts evaluation.
 //
-// Two areas the property statement does not settle are detected dynamically by
+// Three areas the property statement does not settle are detected dynamically by
 // the interpreter and reported as separate outcomes instead of violations when
 // the VM merely disagrees (a VM panic is always a violation):
 //
 //	U1 a closure reads a parameter of an enclosing lambda whose activation has
 //	   already returned ("closure escaping its binder").
 //	U2 a partial application of a variadic library function is applied.
+//	U3 (C22 only) api.Simplify leaves a literal in the function position of a
+//	   call (`(keyed "k")()` => `[#k]()`): the interpreter rejects such a call
+//	   when it is evaluated, the VM when the program is compiled; observable
+//	   only inside lambda bodies that are never entered.
 package vmkit
 
 import (
